@@ -86,23 +86,27 @@ theorem updR_shape (r : String) (k : Kind) (j : J) (toks : List String) (j' : J)
     · exact ⟨node, ReplaceKeys.get_of_walk hw, h⟩
     · cases h
 
-/-- `UpdateRef` along the `$ref`'s own chain preserves the meaning of every good position -/
-theorem updR_retarget_preserves (d d' : J) (toks : List String) (v' : String)
+ /-- the node at the path gets the new `$ref`, written as a `setAt` -/
+theorem updR_setAt (d d' : J) (toks : List String) (v' : String) (a1 : J)
+    (h : Proofs.UpdateComm.updR v' .swagger d toks = some d') (hget : Spec.Pointer.get d toks = some a1) :
+    setAt d toks (a1.set "$ref" (.str v')) = some d' := by
+  obtain ⟨node, hnode, hset⟩ := updR_shape v' .swagger d toks d' h
+  rw [hget] at hnode; cases hnode
+  exact hset
+
+/-- the bundles before and after `UpdateRef` along the `$ref`'s own chain form a re-targeting setting -/
+def retargetSetting (d d' : J) (toks : List String) (v' : String)
     (h : Proofs.UpdateComm.updR v' .swagger d toks = some d')
     (T : List (String × Pos)) (rest : Bundle) (a1 : J)
     (hget : Spec.Pointer.get d toks = some a1) (hv1 : Doc.refStr a1 ≠ "") (hv2 : v' ≠ "")
     (q0 q' : Pos) (ht1 : T.lookup (Doc.refStr a1) = some q0) (ht2 : T.lookup v' = some q')
     (hreach : Reaches (bundleWith d T rest) q0 q')
-    (hcanon : AllCanon (toks)) (hkeys : keysCanon d = true)
-    (hgoodT : ∀ doc s q, (bundleWith d T rest).target doc s = some q → Good (toks) q)
-    (hops : Nat) (had : RSetting.Adequate (bundleWith d T rest) hops) :
-    ∀ n p, Good (toks) p →
-      unfold (bundleWith d T rest) hops n p = unfold (bundleWith d' T rest) hops n p := by
-  obtain ⟨node, hnode, hset⟩ := updR_shape v' .swagger d toks d' h
-  rw [hget] at hnode; cases hnode
+    (hcanon : AllCanon toks) (hkeys : keysCanon d = true)
+    (hgoodT : ∀ doc s q, (bundleWith d T rest).target doc s = some q → Good toks q) : RSetting :=
+  have hset := updR_setAt d d' toks v' a1 h hget
   have hobj := refStr_obj hv1
-  have hget' : Spec.Pointer.get d' (toks) = some (a1.set "$ref" (.str v')) := get_setAt_self _ _ _ _ hset
-  let S : RSetting := {
+  have hget' : Spec.Pointer.get d' toks = some (a1.set "$ref" (.str v')) := get_setAt_self _ _ _ _ hset
+  {
     b1 := bundleWith d T rest
     b2 := bundleWith d' T rest
     kp := ("", toks)
@@ -209,7 +213,40 @@ theorem updR_retarget_preserves (d d' : J) (toks : List String) (v' : String)
       · constructor
         · intro _ _ key' _; exact Or.inl (by simpa [child] using he1)
         · intro _ _ i; exact Or.inl (by simpa [child] using he1) }
-  exact S.retarget_preserves hops had
+
+/-- `UpdateRef` along the `$ref`'s own chain preserves the meaning of every good position -/
+theorem updR_retarget_preserves (d d' : J) (toks : List String) (v' : String)
+    (h : Proofs.UpdateComm.updR v' .swagger d toks = some d')
+    (T : List (String × Pos)) (rest : Bundle) (a1 : J)
+    (hget : Spec.Pointer.get d toks = some a1) (hv1 : Doc.refStr a1 ≠ "") (hv2 : v' ≠ "")
+    (q0 q' : Pos) (ht1 : T.lookup (Doc.refStr a1) = some q0) (ht2 : T.lookup v' = some q')
+    (hreach : Reaches (bundleWith d T rest) q0 q')
+    (hcanon : AllCanon toks) (hkeys : keysCanon d = true)
+    (hgoodT : ∀ doc s q, (bundleWith d T rest).target doc s = some q → Good toks q)
+    (hops : Nat) (had : RSetting.Adequate (bundleWith d T rest) hops) :
+    ∀ n p, Good toks p →
+      unfold (bundleWith d T rest) hops n p = unfold (bundleWith d' T rest) hops n p :=
+  (retargetSetting d d' toks v' h T rest a1 hget hv1 hv2 q0 q' ht1 ht2 hreach hcanon hkeys hgoodT).retarget_preserves hops had
+
+/-- the same with adequacy of the hop bound on the good positions only, which is what survives the step: the second
+    component is the adequacy of the rewritten bundle -/
+theorem updR_retarget_step (d d' : J) (toks : List String) (v' : String)
+    (h : Proofs.UpdateComm.updR v' .swagger d toks = some d')
+    (T : List (String × Pos)) (rest : Bundle) (a1 : J)
+    (hget : Spec.Pointer.get d toks = some a1) (hv1 : Doc.refStr a1 ≠ "") (hv2 : v' ≠ "")
+    (q0 q' : Pos) (ht1 : T.lookup (Doc.refStr a1) = some q0) (ht2 : T.lookup v' = some q')
+    (hreach : Reaches (bundleWith d T rest) q0 q')
+    (hcanon : AllCanon toks) (hkeys : keysCanon d = true)
+    (hgoodT : ∀ doc s q, (bundleWith d T rest).target doc s = some q → Good toks q)
+    (hops : Nat) (had : RSetting.AdequateOn (Good toks) (bundleWith d T rest) hops) :
+    (∀ n p, Good toks p → unfold (bundleWith d T rest) hops n p = unfold (bundleWith d' T rest) hops n p) ∧
+    RSetting.AdequateOn (Good toks) (bundleWith d' T rest) hops ∧
+    (∀ p, Good toks p → p ≠ ("", toks) →
+      ((bundleWith d T rest).node p = none ∧ (bundleWith d' T rest).node p = none) ∨
+      (∃ a c, (bundleWith d T rest).node p = some a ∧ (bundleWith d' T rest).node p = some c ∧
+        Doc.refStr c = Doc.refStr a ∧ ShapeEq a c)) :=
+  let S := retargetSetting d d' toks v' h T rest a1 hget hv1 hv2 q0 q' ht1 ht2 hreach hcanon hkeys hgoodT
+  ⟨S.retarget_preserves_on hops had, S.adequateOn_preserved hops had, S.hnodes⟩
 
 /-- the same for `Replace.updateRef` on an analyzer key -/
 theorem updateRef_retarget_preserves (d d' : J) (key v' : String) (h : updateRef d key v' = .ok d')
